@@ -27,6 +27,12 @@ const DIRECTIVES: &[&str] = &[
     "worker-src 'none'",
     "a",
     "A",
+    // directive text with '=' in it (padded hash sources, query strings): pairs that differ only
+    // after the first '=' of the directive
+    "script-src 'sha256-q1w='",
+    "script-src 'sha256-q1w=='",
+    "report-uri /r?site=shop&v=2",
+    "report-uri /r?site=news&v=2",
 ];
 const RHOSTS: &[&str] = &["foo.com", "ads.net", "example.com", "sub.example.com"];
 const PATHS: &[&str] = &["ads", "foo", "banner", "ads/foo", "x"];
@@ -95,6 +101,16 @@ fn csp_rule(r: &mut Rng) -> String {
         opts.push(o);
     }
     format!("{}{}${}", if exception { "@@" } else { "" }, pat, opts.join(","))
+}
+
+/// The directive a csp rule carries, as written: the text after `csp=` up to the next comma
+/// (None for a blanket `csp` / an empty value).
+fn csp_value_of(line: &str) -> Option<String> {
+    let i = line.rfind('$')?;
+    line[i + 1..].split(',').find_map(|o| {
+        let o = o.trim();
+        if o == "csp" { Some(None) } else { o.strip_prefix("csp=").map(|v| if v.is_empty() { None } else { Some(v.to_string()) }) }
+    })?
 }
 
 /// Does the option list of this line hold a csp option and an explicit resource-type option?
@@ -456,7 +472,8 @@ fn eval(c: &Case) -> Option<Outcome> {
         let tag = adblock::verif_hooks::filter_tag(f).map(|s| s.to_string());
         let mut rm = RegexManager::default();
         if f.matches(&req, &mut rm) {
-            candidates.push((tag, f.is_exception(), f.modifier_option.clone()));
+            // the directive is read off the rule text, not off the parsed rule
+            candidates.push((tag, f.is_exception(), csp_value_of(line)));
         }
     }
     Some(Outcome { rt: format!("{:?}", req.request_type), candidates, masks, steps })
